@@ -31,7 +31,7 @@ from props import topiclib as T
 from props import c04hist as H
 from props.statelib import kvs, eff, View
 
-OBO_KINDS = ("sub", "leave", "pub", "getdata", "getdel", "delmsg")
+OBO_KINDS = ("sub", "subget", "leave", "pub", "getdata", "getdel", "delmsg")
 
 
 def split_kind(kind):
@@ -139,11 +139,27 @@ def gen_scn(rng, sid, faults):
     att = set()          # ordinary sessions believed attached
     ras = {}             # root session -> the user it is believed attached as
 
+    last = 0
+
+    def get_opts(kind):
+        if rng.random() < 0.2:
+            return "-"
+        if kind == "data":
+            return "%d:%d:%d" % (rng.choice([0, 0, 0, 1, 2, last]), rng.choice([0, 0, 0, last + 1, last]), rng.choice([0, 0, 0, 1, 2, 200]))
+        return "%d:%d:%d" % (rng.choice([0, 0, 0, 1, 2]), rng.choice([0, 0, 0, 2, 3]), rng.choice([0, 0, 0, 5]))
+
+    def attach_op(x, obo):
+        """{sub}, or {sub get="data del"}"""
+        sfx = "" if obo is None else "@%d" % obo
+        if rng.random() < 0.4:
+            return ("N", "subget" + sfx, [x, "-", 0, get_opts("data"), get_opts("del")])
+        return ("N", "sub" + sfx, [x, "-", 0])
+
     def root_attach(r, u):
         if r in ras:
             ops.append(("N", "leave@%d" % ras[r], [r, 0]))
             del ras[r]
-        ops.append(("N", "sub@%d" % u, [r, "-", 0]))
+        ops.append(attach_op(r, u))
         ras[r] = u
 
     for x in plain:
@@ -216,9 +232,9 @@ def gen_scn(rng, sid, faults):
         elif r0 < 0.74:
             # an ordinary session naming a user: refused
             x = rng.choice(plain)
-            kind = rng.choice(["getdata", "getdata", "getdel", "delmsg", "pub", "sub", "leave"])
+            kind = rng.choice(["getdata", "getdata", "getdel", "delmsg", "pub", "sub", "leave", "subget"])
             u = rng.choice(users)
-            args = {"getdata": [x, 0, 0, 0], "getdel": [x, 0, 0, 0], "delmsg": [x, rng.randint(0, 1), H.gen_ranges(rng, last)],
+            args = {"subget": [x, "-", 0, "0:0:0", "0:0:0"], "getdata": [x, 0, 0, 0], "getdel": [x, 0, 0, 0], "delmsg": [x, rng.randint(0, 1), H.gen_ranges(rng, last)],
                     "pub": [x, 100 + len(ops), 0], "sub": [x, "-", 0], "leave": [x, rng.randint(0, 1)]}[kind]
             ops.append(("N", "%s@%d" % (kind, u), args))
         elif r0 < 0.76:
@@ -254,7 +270,7 @@ def gen_scn(rng, sid, faults):
                 ops.append(("N", "leave", [x, 1 if rng.random() < 0.3 else 0]))
                 att.discard(x)
             else:
-                ops.append((flt, "sub", [x, "-", 0]))
+                ops.append(attach_op(x, None) if flt == "N" else (flt, "sub", [x, "-", 0]))
                 att.add(x)
         else:
             ops.append(("N", "restart", []))
@@ -273,7 +289,7 @@ def gen_scn(rng, sid, faults):
     # root session on his behalf and through his own session
     for y in plain:
         if y not in att and rng.random() < 0.7:
-            ops.append(("N", "sub", [y, "-", 0]))
+            ops.append(attach_op(y, None))
     for r in roots:
         if r not in ras:
             root_attach(r, rng.choice(members))
@@ -282,6 +298,15 @@ def gen_scn(rng, sid, faults):
             grp = [("N", "%s@%d" % (kind, u), [r, 0, 0, 0]) for r in roots] + [("N", kind, [y, 0, 0, 0]) for y in own.get(u, [])]
             rng.shuffle(grp)
             ops.extend(grp)
+    # and once more through {sub get="data del"}: the root session comes back on behalf of a member, then his own sessions read
+    for r in roots:
+        u = rng.choice(members)
+        ops.append(("N", "leave@%d" % ras[r], [r, 0]))
+        ops.append(("N", "subget@%d" % u, [r, "-", 0, "0:0:0", "0:0:0"]))
+        ras[r] = u
+        for y in own.get(u, []):
+            ops.append(("N", "getdata", [y, 0, 0, 0]))
+            ops.append(("N", "getdel", [y, 0, 0, 0]))
     sc.ops = ops
     return sc
 
@@ -383,11 +408,48 @@ def sess_desc(sc, sid, k):
     return "own session of user %s" % sc.sessions[sid]
 
 
+def expand(sc, blocks):
+    """{sub get="data del"} as the three requests it stands for (c04_obo_sub_get_as_requests): the subscription with
+    its reply, then - when the reply is a 200 - {get data} and {get del} with their frames; the stored rows and the
+    cache after each part are those after the whole request (the reads change nothing).
+    -> (scenario with the expanded ops, blocks, origin[k] = index of the original op)"""
+    vs = sc.clone([])
+    vb, origin = [], []
+    for k, (f, kind0, args) in enumerate(sc.ops):
+        kind, obo = split_kind(kind0)
+        b = blocks[k]
+        if kind != "subget":
+            vs.ops.append((f, kind0, args))
+            vb.append(b)
+            origin.append(k)
+            continue
+        sfx = "" if obo is None else "@" + obo
+        sid = args[0]
+        mine = [(s_, t) for s_, t in b["frames"] if s_ == sid]
+        rest = [(s_, t) for s_, t in b["frames"] if s_ != sid]
+        data = [(s_, t) for s_, t in mine if t.startswith("data ") or (t.startswith("ctrl ") and "what=data" in t)]
+        dl = [(s_, t) for s_, t in mine if t.startswith("del ") or (t.startswith("ctrl ") and "what=del" in t)]
+        sub = [e for e in mine if e not in data and e not in dl]
+        accepted = any(t.startswith("ctrl 200") for _, t in sub)
+        vs.ops.append((f, "sub" + sfx, [sid, args[1], args[2]]))
+        vb.append(dict(b, frames=rest + sub))
+        origin.append(k)
+        for part, frames, what in ((args[3], data, "getdata"), (args[4], dl, "getdel")):
+            if (part != "-" and accepted) or frames:
+                q = [int(x) for x in part.split(":")] if part != "-" else [0, 0, 0]
+                vs.ops.append((f, what + sfx, [sid] + q))
+                vb.append(dict(b, frames=frames))
+                origin.append(k)
+    return vs, vb, origin
+
+
 def monitor(sc, blocks):
-    views = [View(b) for b in blocks]
+    vs, vb, origin = expand(sc, blocks)
+    views = [View(b) for b in vb]
     users = sorted(set(sc.sessions.values()) | set(range(1, sc.nusers + 1)))
-    res = H.monitor(sc.plain(), views, acting=sc.acting, users=users)
-    res += obo_laws(sc, views)
+    res = H.monitor(vs.plain(), views, acting=vs.acting, users=users)
+    res += obo_laws(vs, views)
+    res = [(law, origin[k], detail) for law, k, detail in res]
     for k, b in enumerate(blocks):
         if b["hang"]:
             res.append(("hang", k, b["hang"]))
@@ -401,7 +463,7 @@ def run_obo(ctx, counts=None):
     """histories with root sessions and extra.obo -> implementation + model -> laws on the implementation's trace ->
     projection compare -> search near a mismatch; records violations and coverage in ctx (no finish)."""
     quick = ctx.tier == "quick"
-    total = (counts or {}).get(ctx.tier, 110 if quick else 1500)
+    total = (counts or {}).get(ctx.tier, 90 if quick else 1500)
     scns = []
     if ctx.replay:
         rp = json.load(open(ctx.replay))
@@ -481,7 +543,7 @@ def run_obo(ctx, counts=None):
             continue
         for k in range(len(io)):
             kind = split_kind(sc.ops[k][1])[0]
-            if kind in C04_OPS or split_kind(sc.ops[k][1])[1] is not None:
+            if kind in C04_OPS or kind == "subget" or split_kind(sc.ops[k][1])[1] is not None:
                 d = T.diff_op(io[k], mo[k], ("frames", "store", "cache", "loaded"), H.frame_f, H.line_f)
             else:
                 d = T.diff_op(io[k], mo[k], ("store", "cache", "loaded"), None, H.line_f)
@@ -564,7 +626,8 @@ def run_obo(ctx, counts=None):
             sig.append((o, tuple(b["frames"])))
         # obo reads whose answer differs from what the session's own user would be shown (the case the seeded change breaks)
         vs = [View(b) for b in impl[sc.id]]
-        obo_laws(sc, vs, st)
+        ex = expand(sc, impl[sc.id])
+        obo_laws(ex[0], [View(b) for b in ex[1]], st)
         for k, o in enumerate(sc.ops):
             kind, obo = split_kind(o[1])
             sid = o[2][0] if o[2] else None
